@@ -353,6 +353,10 @@ type c07Case struct {
 	// (other-desc: trusted signer, other artifact and metadata values; untrusted: same artifact, untrusted signer)
 	Decoys   []string `json:"decoy_signatures,omitempty"`
 	DecoyPos string   `json:"decoy_position,omitempty"` // before | after | both
+	// timed family: the clock read just before verification is an input of the model (C07_Multi.model_at);
+	// WaitExpiry: verification starts only after the expiry written into the envelope
+	Timed      bool `json:"verification_time_is_an_input,omitempty"`
+	WaitExpiry bool `json:"verify_after_expiry,omitempty"`
 	// non-nil empty maps instead of nil
 	MetaEmpty  bool `json:"user_metadata_empty_map,omitempty"`
 	VMetaEmpty bool `json:"verify_user_metadata_empty_map,omitempty"`
@@ -578,6 +582,7 @@ type override struct {
 }
 
 type execResult struct {
+	wrap         string // constructor of the case kind: XS (default) | XT
 	term, key    string
 	signed       bool
 	sc, vcode    int64
@@ -727,10 +732,11 @@ func runC07(a *Args) error {
 	prelude := "From NV Require Import Base C07_Model C07_Multi.\nOpen Scope string_scope.\n"
 	w := NewCaseWriter(a, "C07", prelude, "xcase", "xrun")
 	w.ShardSize = 600
-	w.Rule = "sign->verify pairs on the real API: {RSA-2048/3072/4096, EC-256/384/521} x {JWS, COSE} x {OCI descriptor, blob} x {local signer, plugin signature generator, plugin envelope generator} as a full grid with generated descriptors (urls, data, platform, artifactType, annotations), blob contents of sizes 0..1 MiB (thorough: 4 MiB) handed over as io.Readers of 7 shapes for signing x 7 for verifying (bytes.Reader, no-WriteTo, data together with io.EOF, gzip, one byte at a time, half reads, (0,nil) reads; sizes 0, 1, 32 KiB and 64 KiB -1/0/+1) plus readers failing with a non-EOF error at the start / middle / last byte with and without data, media types, user-metadata maps (quotes, HTML characters, non-ASCII, U+2028, empty values), expiry durations (0, seconds .. 100 years), signing agents; plus streams that violate one rule each: illegal arguments (negative / sub-second duration, bad envelope or content media type), reserved or clashing metadata keys, untrusted signer, changed blob / descriptor / media type at verification, metadata demanded at verification (subset, wrong value, missing, reserved), plugins that describe an unknown or a wrong key spec or have no / both capabilities, strings that are not valid UTF-8, descriptor sizes around 2^53 (JWS float64 finding); systematic families: verification LESS specific than signing (no content media type, nil / empty / one / all metadata), nil vs empty maps and empty keys / values, history (ONE signer instance signs 4 things in sequence with an illegal request in the middle, each step its own case), other signatures (other artifact / untrusted signer) listed before / after / around the genuine one in the repository. non-trivial = signing succeeded and verification was attempted; distinct = distinct input tuples"
+	w.Rule = "sign->verify pairs on the real API: {RSA-2048/3072/4096, EC-256/384/521} x {JWS, COSE} x {OCI descriptor, blob} x {local signer, plugin signature generator, plugin envelope generator} as a full grid with generated descriptors (urls, data, platform, artifactType, annotations), blob contents of sizes 0..1 MiB (thorough: 4 MiB) handed over as io.Readers of 7 shapes for signing x 7 for verifying (bytes.Reader, no-WriteTo, data together with io.EOF, gzip, one byte at a time, half reads, (0,nil) reads; sizes 0, 1, 32 KiB and 64 KiB -1/0/+1) plus readers failing with a non-EOF error at the start / middle / last byte with and without data, media types, user-metadata maps (quotes, HTML characters, non-ASCII, U+2028, empty values), expiry durations (0, seconds .. 100 years), signing agents; plus streams that violate one rule each: illegal arguments (negative / sub-second duration, bad envelope or content media type), reserved or clashing metadata keys, untrusted signer, changed blob / descriptor / media type at verification, metadata demanded at verification (subset, wrong value, missing, reserved), plugins that describe an unknown or a wrong key spec or have no / both capabilities, strings that are not valid UTF-8, descriptor sizes around 2^53 (JWS float64 finding); systematic families: verification LESS specific than signing (no content media type, nil / empty / one / all metadata), nil vs empty maps and empty keys / values, history (ONE signer instance signs 4 things in sequence with an illegal request in the middle, each step its own case), other signatures (other artifact / untrusted signer) listed before / after / around the genuine one in the repository (the mock repository lists the signature manifests WITH their annotations - certificate thumbprints, creation time - as registry.Repository does); multi-signature histories (C07_Multi.v): ONE artifact signed 2-4 times with notation.SignOCI by the SAME signer instance / certificate chain or by different signers (other trusted keys, an untrusted signer), every call with its own user metadata (stage=prod / dev / absent / other value / no metadata) and expiry (none, 1 h, 24 h, or 1 s = expired when Verify runs), then ONE notation.Verify demanding stage=prod (or nothing) that exactly one signature satisfies, at EVERY listing position (listing order = call order, reversed, rotated) x reason of the others (metadata / expired / mixed with untrusted) x same / different signers x repository (mock, registry.Repository over an oras memory store, OCI layout on disk written through registry.NewOCIRepository and re-opened for Verify); plus two satisfying signatures (first listed wins), none satisfying, MaxSignatureAttempts at / below the position of the satisfying one, exactly the number of failing ones, 0, no signature at all, a refused SignOCI call in the middle, a verification-time descriptor differing in uncovered fields / in the size; observed per history: every SignOCI result, the blobs downloaded and the verifier.Verify calls made (order, result class), whose outcome is returned, returned descriptor, UserMetadata(). non-trivial = signing succeeded and verification was attempted; distinct = distinct input tuples"
 	w.Assumptions = []string{
 		"the clock value read inside Sign is taken from the signing time found in the envelope (its sub-second part from a clock reading just before the call)",
-		"signatures verify well before their expiry (generated durations are 0 or >= 1 hour)",
+		"single-signature cases: signatures verify well before their expiry (generated durations are 0 or >= 1 hour); multi-signature histories: the clock read just before notation.Verify is the model's verification time, one-second signatures have expired by then (the verify phase waits for it) and the harness checks that no signature expires while Verify runs",
+		"multi-signature histories: a wrapper around the real repository re-orders the listed signature manifest descriptors (taken unchanged, annotations included, from the real repository) into the listing order of the case and records FetchSignatureBlob calls; a wrapper around the real verifier records every verifier.Verify call; all signatures are listed in one page",
 		"the scripted plugin is faithful: it signs the bytes it is given with the described key and the requested hash / expiry",
 		"trust store content decides trust: the policy names a store holding the root of the signing chain (trusted) or another root (not trusted); revocation passes (no OCSP/CRL pointers)",
 		"signatures that the repository lists besides the genuine one (made for another artifact or by an untrusted signer) do not change the observation: the model is evaluated on the genuine one alone",
@@ -750,9 +756,14 @@ func runC07(a *Args) error {
 		// ----- signer
 		var plug *scriptPlugin
 		var sg signerBoth
+		var gs0 *groupState
+		if c.Group != "" {
+			gs0 = groups[c.Group] // (the map is not touched for cases outside a history: they may run in goroutines)
+		}
 		if ov != nil {
 			sg, plug, ctx = ov.sg, ov.plug, ov.ctx
-		} else if gs, ok := groups[c.Group]; ok && c.Group != "" {
+		} else if gs0 != nil {
+			gs := gs0
 			sg, plug = gs.sg, gs.plug
 			if plug != nil {
 				plug.sigReq, plug.envReq, plug.envTime = nil, nil, time.Time{}
@@ -870,6 +881,7 @@ func runC07(a *Args) error {
 		// ----- read the envelope
 		envTerm := "None"
 		now := before
+		var sigExpiry time.Time
 		if sig != nil {
 			ct, err := CoreVerify(c.Format, sig)
 			if err != nil {
@@ -892,6 +904,7 @@ func runC07(a *Args) error {
 			}
 			st := ct.SignerInfo.SignedAttributes.SigningTime
 			ex := ct.SignerInfo.SignedAttributes.Expiry
+			sigExpiry = ex
 			exTerm := "None"
 			if !ex.IsZero() {
 				exTerm = CSome(CZ(ex.Unix()))
@@ -919,6 +932,12 @@ func runC07(a *Args) error {
 		vcode := int64(7)
 		var vhash string
 		retTerm, metaTerm := "None", "None"
+		if sig != nil && c.WaitExpiry && !sigExpiry.IsZero() {
+			if d := time.Until(sigExpiry.Add(30 * time.Millisecond)); d > 0 {
+				time.Sleep(d)
+			}
+		}
+		vnow := time.Now()
 		if sig != nil {
 			if c.Kind == "oci" {
 				vd := c.VOCI.toOCI()
@@ -994,6 +1013,9 @@ func runC07(a *Args) error {
 			}
 		}
 		obs["verify"] = vcode
+		if c.Timed && sig != nil && !sigExpiry.IsZero() && vnow.Before(sigExpiry) != time.Now().Before(sigExpiry) {
+			res.viol = append(res.viol, "harness: the signature expired while verification was running (case not decidable)")
+		}
 		c.Obs = obs
 		// ----- terms
 		signerTerm := "Local"
@@ -1013,6 +1035,10 @@ func runC07(a *Args) error {
 			CBool(c.Trusted), vtargetTerm, CMap(vmetaIn))
 		ob := CApp("mk_obs", CN(sc), optStr(shash, shash != ""), plugsig, plugenv, envTerm, CN(vcode), optStr(vhash, vhash != ""), retTerm, metaTerm)
 		term := CApp("mk_case", CN(my), in, ob)
+		if c.Timed {
+			term = CApp("mk_tcase", CN(my), in, CZ(vnow.UnixNano()), ob)
+			res.wrap = "XT"
+		}
 		if letBlob != "" {
 			term = "(let b_ := " + letBlob + " in " + term + ")"
 		}
@@ -1035,7 +1061,11 @@ func runC07(a *Args) error {
 			return
 		}
 		sc, vcode := res.sc, res.vcode
-		w.Add(my, "(XS "+res.term+")", c, res.key, res.signed)
+		wrap := res.wrap
+		if wrap == "" {
+			wrap = "XS"
+		}
+		w.Add(my, "("+wrap+" "+res.term+")", c, res.key, res.signed)
 		w.Count("family", c.Family)
 		w.Count("key", c.Key)
 		w.Count("format", c.Format)
@@ -1070,11 +1100,13 @@ func runC07(a *Args) error {
 		return concChild(a, e, exec, out)
 	}
 	multiRuns := multiSign(a, e, w)
+	timedJoin := timedStart(a, w, exec)
 	gen := &generator{rng: rng, tier: a.Tier}
-	if a.Only < multiBase {
+	if a.Only < timedBase {
 		gen.all(runCase)
 	}
 	concParent(a, w, add)
+	timedJoin(add)
 	multiVerify(multiRuns, e, w)
 	// regression inputs
 	if a.Corpus != "" {
